@@ -1,12 +1,15 @@
 import XV.Model.GovToken
 import XV.Lemmas.GovToken
+import XV.Lemmas.GovStake
 /-!
 # C19 — governance tokens are conserved; locks bind and only lock/unlock changes them
 
 All theorems are about `XV.GovToken` (the model of the REPAIRED `$govern_token` contract together with the
-`$proposal` / `$timer_task` contracts that lock and release tokens) and quantify over every genesis
-predistribution `pre` (duplicates allowed), every world state or every history `cs : List Call` of
-Init / Transfer / Lock / UnLock (by any caller) / Propose / Vote / Thaw / timer callbacks, and all `Int` amounts.
+`$proposal` / `$timer_task` contracts and the `$tdpos` election contract that lock and release tokens) and quantify
+over every genesis predistribution `pre` (duplicates allowed), every world state or every history `cs : List Call` of
+Init / Transfer / Lock / UnLock (by any caller) / Propose / Vote / Thaw / timer callbacks / new blocks /
+nominateCandidate / revokeNominate / voteCandidate / revokeVote (any initiator, candidate, co-signature, named block
+height), and all `Int` amounts.
 -/
 namespace XV.C19
 open XV.GovToken
@@ -64,8 +67,9 @@ theorem self_transfer_neutral {g g' : Gov} {a : Acct} {n : Int} (h : transfer g 
 
 /-- The calls that may change `locked a τ`: a Lock/UnLock naming `a` and `τ` coming from a permitted contract;
 the proposal contract locking/unlocking the initiator's own ordinary tokens (Propose, Vote, Thaw by `a`); the
-timer callbacks releasing ordinary tokens of an account that has a recorded proposal lock.  Init and Transfer
-(to, from or between anybody) never do. -/
+timer callbacks releasing ordinary tokens of an account that has a recorded proposal lock; the election contract
+locking/unlocking the INITIATOR's own tdpos tokens (nominate, revokeNominate, vote, revokeVote by `a` — never the
+candidate's).  Init, Transfer (to, from or between anybody) and new blocks never do. -/
 def mayTouchLock (w : World) : Call → Acct → LockType → Prop
   | .init, _, _ => False
   | .transfer _ _ _, _, _ => False
@@ -79,6 +83,11 @@ def mayTouchLock (w : World) : Call → Acct → LockType → Prop
     c = .timer ∧ σ = .ordinary ∧ lockScanCovers x = true ∧ ∃ pid amt, ((pid, x), amt) ∈ w.locks
   | .trigger c _, x, σ =>
     c = .timer ∧ σ = .ordinary ∧ lockScanCovers x = true ∧ ∃ pid amt, ((pid, x), amt) ∈ w.locks
+  | .newBlock, _, _ => False
+  | .nominate i _ _ _ _, x, σ => x = i ∧ σ = .tdpos
+  | .revokeNominate i _ _, x, σ => x = i ∧ σ = .tdpos
+  | .tdVote i _ _ _, x, σ => x = i ∧ σ = .tdpos
+  | .tdRevokeVote i _ _ _, x, σ => x = i ∧ σ = .tdpos
 
 /-- In EVERY state, for every call: if the locked amount of `(a, τ)` differs afterwards, the call was a
 lock/unlock operation on `a` for `τ` (directly, or issued by the proposal contract on behalf of `a`). -/
@@ -161,6 +170,38 @@ theorem locks_only_by_lock_unlock (w : World) (c : Call) (a : Acct) (τ : LockTy
         subst hs
         exact ⟨hc, (releases_trigger w pid).only a τ hne⟩
       · contradiction
+    | newBlock =>
+      simp only [step?, Option.some.injEq] at hs
+      subst hs
+      exact absurd rfl hne
+    | nominate i cd n auth hgt =>
+      simp only [step?] at hs
+      obtain ⟨s, g, _, _, _, hl, _, rfl⟩ := nominate_some hs
+      have := lock_lockedOf hl a τ
+      by_cases hx : a = i ∧ some LockType.tdpos = some τ
+      · exact ⟨hx.1, (Option.some.inj hx.2).symm⟩
+      · rw [if_neg hx] at this; exact absurd this hne
+    | revokeNominate i cd hgt =>
+      simp only [step?] at hs
+      obtain ⟨s, ballot, g, _, _, hl, rfl⟩ := revokeNominate_some hs
+      have := unlock_lockedOf hl a τ
+      by_cases hx : a = i ∧ some LockType.tdpos = some τ
+      · exact ⟨hx.1, (Option.some.inj hx.2).symm⟩
+      · rw [if_neg hx] at this; exact absurd this hne
+    | tdVote i cd n hgt =>
+      simp only [step?] at hs
+      obtain ⟨s, g, _, _, hl, _, rfl⟩ := tdVote_some hs
+      have := lock_lockedOf hl a τ
+      by_cases hx : a = i ∧ some LockType.tdpos = some τ
+      · exact ⟨hx.1, (Option.some.inj hx.2).symm⟩
+      · rw [if_neg hx] at this; exact absurd this hne
+    | tdRevokeVote i cd n hgt =>
+      simp only [step?] at hs
+      obtain ⟨s, g, vm, v, _, _, hl, _, _, _, rfl⟩ := tdRevokeVote_some hs
+      have := unlock_lockedOf hl a τ
+      by_cases hx : a = i ∧ some LockType.tdpos = some τ
+      · exact ⟨hx.1, (Option.some.inj hx.2).symm⟩
+      · rw [if_neg hx] at this; exact absurd this hne
 
 /-- A successful Lock raises exactly `locked a τ` by exactly `n ≥ 0`, within the balance; nothing else moves. -/
 theorem lock_exact {g g' : Gov} {c : Caller} {a : Acct} {n : Int} {τ : LockType}
@@ -221,6 +262,51 @@ theorem proposal_calls_lock_exactly (w : World) :
     obtain ⟨amt, g, hamt, hl, hgov, _⟩ := thaw_some h
     rw [hgov]
     exact ⟨amt, hamt, (unlock_exact hl).2.2.1, (unlock_exact hl).2.2.2.2⟩
+
+/-- The election contract locks and unlocks the tokens of the transaction's INITIATOR, tdpos type, and nobody
+else's — whoever the candidate is (third-party nominations included) and whatever block the call names:
+nominateCandidate locks exactly the deposit, revokeNominate releases exactly the deposit the named snapshot records
+for (candidate, initiator), voteCandidate locks exactly the ballots, revokeVote releases exactly the ballots
+(at most what the snapshot records).  Balances do not move. -/
+theorem tdpos_calls_lock_initiator (w : World) :
+    (∀ i c n auth h w', nominate w i c n auth h = some w' →
+        0 < n ∧ lockedOf w'.gov i .tdpos = lockedOf w.gov i .tdpos + n ∧
+        (∀ x σ, (x ≠ i ∨ σ ≠ .tdpos) → lockedOf w'.gov x σ = lockedOf w.gov x σ) ∧
+        ∀ x, totalOf w'.gov x = totalOf w.gov x) ∧
+    (∀ i c h w', revokeNominate w i c h = some w' → ∃ s ballot, tdSnapAt w h = some s ∧
+        aget s.nom c = some (i, ballot) ∧ lockedOf w'.gov i .tdpos = lockedOf w.gov i .tdpos - ballot ∧
+        (∀ x σ, (x ≠ i ∨ σ ≠ .tdpos) → lockedOf w'.gov x σ = lockedOf w.gov x σ) ∧
+        ∀ x, totalOf w'.gov x = totalOf w.gov x) ∧
+    (∀ i c n h w', tdVote w i c n h = some w' →
+        0 < n ∧ lockedOf w'.gov i .tdpos = lockedOf w.gov i .tdpos + n ∧
+        (∀ x σ, (x ≠ i ∨ σ ≠ .tdpos) → lockedOf w'.gov x σ = lockedOf w.gov x σ) ∧
+        ∀ x, totalOf w'.gov x = totalOf w.gov x) ∧
+    (∀ i c n h w', tdRevokeVote w i c n h = some w' → ∃ s vm v, tdSnapAt w h = some s ∧
+        aget s.votes c = some vm ∧ aget vm i = some v ∧ 0 < n ∧ n ≤ v ∧
+        lockedOf w'.gov i .tdpos = lockedOf w.gov i .tdpos - n ∧
+        (∀ x σ, (x ≠ i ∨ σ ≠ .tdpos) → lockedOf w'.gov x σ = lockedOf w.gov x σ) ∧
+        ∀ x, totalOf w'.gov x = totalOf w.gov x) := by
+  refine ⟨?_, ?_, ?_, ?_⟩
+  · intro i c n auth h w' hh
+    obtain ⟨s, g, _, hn, _, hl, _, rfl⟩ := nominate_some hh
+    exact ⟨hn, (lock_exact hl).2.1, (lock_exact hl).2.2.2.1, (lock_exact hl).2.2.2.2⟩
+  · intro i c h w' hh
+    obtain ⟨s, ballot, g, hs, hc, hl, rfl⟩ := revokeNominate_some hh
+    exact ⟨s, ballot, hs, hc, (unlock_exact hl).2.2.1, (unlock_exact hl).2.2.2.1, (unlock_exact hl).2.2.2.2⟩
+  · intro i c n h w' hh
+    obtain ⟨s, g, _, hn, hl, _, rfl⟩ := tdVote_some hh
+    exact ⟨hn, (lock_exact hl).2.1, (lock_exact hl).2.2.2.1, (lock_exact hl).2.2.2.2⟩
+  · intro i c n h w' hh
+    obtain ⟨s, g, vm, v, hs, hn, hl, hvm, hv, hle, rfl⟩ := tdRevokeVote_some hh
+    exact ⟨s, vm, v, hs, hvm, hv, hn, hle, (unlock_exact hl).2.2.1, (unlock_exact hl).2.2.2.1, (unlock_exact hl).2.2.2.2⟩
+
+/-- Withdrawing a nomination made by a third party (initiator ≠ candidate) leaves every locked amount and the
+balance of the CANDIDATE untouched: the deposit goes back to the nominator who locked it. -/
+theorem revoke_third_party_leaves_candidate {w w' : World} {i c : Acct} {h : Int} (hic : c ≠ i)
+    (hh : revokeNominate w i c h = some w') :
+    (∀ σ, lockedOf w'.gov c σ = lockedOf w.gov c σ) ∧ totalOf w'.gov c = totalOf w.gov c := by
+  obtain ⟨s, ballot, _, _, _, hrest, htot⟩ := (tdpos_calls_lock_initiator w).2.1 i c h w' hh
+  exact ⟨fun σ => hrest c σ (Or.inl hic), htot c⟩
 
 /-- The timer callbacks (CheckVoteResult / Trigger through `$timer_task.Do`) never move a balance, never touch a
 tdpos lock and never raise a lock. -/
@@ -292,6 +378,104 @@ theorem locks_within_balance (pre : List (Acct × Int)) (cs : List Call) (a : Ac
   simp only [RecOK] at this
   cases τ <;> simp only [Bal.locked] <;> omega
 
+/-! ## stakes bind: what is staked on an open proposal, a nomination or a ballot stays locked -/
+
+/-- the full statement: after ANY history every account has at least its open stakes locked, per lock type -/
+def stakes_stay_locked_statement : Prop :=
+  ∀ (pre : List (Acct × Int)) (cs : List Call) (a : Acct),
+    stakeOrd (run (genesis pre) cs).props (run (genesis pre) cs).locks a ≤ lockedOf (run (genesis pre) cs).gov a .ordinary ∧
+      stakeTd (run (genesis pre) cs).td a ≤ lockedOf (run (genesis pre) cs).gov a .tdpos
+
+/-- Stakes bind, for every history in which (1) no raw UnLock arrives from `$proposal` / `$tdpos` / `$xpos` outside the
+modelled methods and (2) every election call names a block whose snapshot is the committed state: the ordinary lock
+of every account covers its records on the proposals that are still open (voting, or passed and not yet executed),
+its tdpos lock covers its nomination deposits plus its ballots.  In particular a proposal that PASSES releases
+nothing before its trigger runs, a trigger releases nothing staked elsewhere, and a withdrawal releases nothing but
+the withdrawn stake. -/
+theorem stakes_stay_locked_partial (pre : List (Acct × Int)) (cs : List Call)
+    (hd : disciplinedRun (genesis pre) cs = true) (a : Acct) :
+    stakeOrd (run (genesis pre) cs).props (run (genesis pre) cs).locks a ≤ lockedOf (run (genesis pre) cs).gov a .ordinary ∧
+      stakeTd (run (genesis pre) cs).td a ≤ lockedOf (run (genesis pre) cs).gov a .tdpos :=
+  ⟨(run_staked cs (staked_new pre) hd).ord a, (run_staked cs (staked_new pre) hd).td a⟩
+
+/-- CheckVoteResult touches the token bucket only when it REJECTS the proposal: a proposal that passes keeps every
+stake locked until its trigger runs. -/
+theorem check_vote_releases_only_on_reject (w : World) (pid : Nat) (h : (checkVote w pid).gov ≠ w.gov) :
+    ∃ p, aget w.props pid = some p ∧ p.status = .voting ∧
+      aget (checkVote w pid).props pid = some { p with status := .rejected } := by
+  cases hp : aget w.props pid with
+  | none => exfalso; apply h; simp [checkVote, hp]
+  | some p =>
+    by_cases hs : p.status = .voting
+    · cases hsup : w.gov.supply with
+      | none => exfalso; apply h; simp [checkVote, hp, hs, hsup]
+      | some sup =>
+        by_cases hlt : p.votes < sup * p.pct / 100
+        · refine ⟨p, rfl, hs, ?_⟩
+          simp [checkVote, hp, hs, hsup, hlt, aget_aput]
+        · exfalso; apply h; simp [checkVote, hp, hs, hsup, hlt]
+    · exfalso; apply h; simp [checkVote, hp, hs]
+
+/-- A release (CheckVoteResult rejecting, Trigger executing) lowers the ordinary lock of an account by at most the
+records that account holds on THAT proposal: it never eats what the account has staked on another proposal. -/
+theorem release_bounded_by_own_records (w : World) (pid : Nat) (hn : ∀ e ∈ w.locks, 0 ≤ e.2) (x : Acct) :
+    lockedOf w.gov x .ordinary - recSum pid x w.locks ≤ lockedOf (trigger w pid).gov x .ordinary ∧
+      lockedOf w.gov x .ordinary - recSum pid x w.locks ≤ lockedOf (checkVote w pid).gov x .ordinary := by
+  have h0 := recSum_nonneg pid x hn
+  have hrel : lockedOf w.gov x .ordinary - recSum pid x w.locks ≤ lockedOf (unlockAll w.gov pid w.locks) x .ordinary :=
+    unlockAll_cover pid x w.locks hn w.gov _ (by omega)
+  constructor
+  · unfold trigger
+    split
+    · omega
+    · split
+      · omega
+      · exact hrel
+  · unfold checkVote
+    split
+    · omega
+    · split
+      · omega
+      · split
+        · omega
+        · split
+          · exact hrel
+          · show _ ≤ lockedOf w.gov x .ordinary
+            omega
+
+/-- one disciplined call keeps the books covered, in every state where they are -/
+theorem stakes_stay_locked_step (w : World) (c : Call) (hs : Staked w) (hd : disciplined w c = true) :
+    Staked (step w c) :=
+  step_staked hs hd
+
+/-- the hypothesis on election calls is what a client gets that names the tip right after a new block -/
+theorem fresh_after_new_block (w : World) : freshAt (sealBlock w) (sealBlock w).tip = true := by
+  have hlen : (sealBlock w).tdSnaps.length = w.tdSnaps.length + 1 := by simp [sealBlock]
+  have htip : ((sealBlock w).tip : Int) = (w.tdSnaps.length : Int) + 3 := by
+    simp only [World.tip, tdBaseTip, hlen]; omega
+  unfold freshAt tdSnapAt
+  rw [htip]
+  have h1 : ¬ ((w.tdSnaps.length : Int) + 3 ≤ tdStartHeight ∨ (w.tdSnaps.length : Int) + 3 > (w.tdSnaps.length : Int) + 3) := by
+    simp only [tdStartHeight]; omega
+  have h2 : ¬ ((w.tdSnaps.length : Int) + 3 ≤ (tdBaseTip : Int)) := by simp only [tdBaseTip]; omega
+  have h3 : ((w.tdSnaps.length : Int) + 3 - (tdBaseTip : Int) - 1).toNat = w.tdSnaps.length := by
+    simp only [tdBaseTip]; omega
+  rw [if_neg h1, if_neg h2, h3]
+  simp [sealBlock]
+
+/-- The code as it is breaks the full statement: the election methods read their records from the snapshot of the
+block the CALLER names. Account 1 nominates itself (500) and votes (500), withdraws the nomination in block 5, then
+sends the withdrawal again naming block 4, whose snapshot still holds the nomination: another 500 are unlocked, the
+500 ballots stay on the books with nothing locked
+(corpus/C19/open-stake-unlocked-stale-snapshot.ops replays this on the real contract). -/
+theorem stakes_stay_locked_counterexample : ¬ stakes_stay_locked_statement := by
+  intro h
+  have := (h [(0, 3000), (1, 1500)]
+    [.init, .newBlock, .nominate 1 1 500 false 3, .newBlock, .tdVote 1 1 500 4, .newBlock, .revokeNominate 1 1 5,
+     .revokeNominate 1 1 4] 1).2
+  revert this
+  decide
+
 /-! ## restricted callers -/
 
 /-- Lock and UnLock do nothing unless the caller is `$proposal`, `$tdpos` or `$xpos`; an invalid lock type is
@@ -353,6 +537,32 @@ example : transfer (run (genesis [(0, 10)]) [.init, .lock .tdpos 0 6 (some .tdpo
 example : lockedOf (run (genesis [(0, 3000), (1, 1500)])
       [.init, .propose 0 51 5 9 true, .vote 1 1 500, .timer 5]).gov 1 .ordinary = 0 ∧
     lockedOf (run (genesis [(0, 3000), (1, 1500)]) [.init, .propose 0 51 5 9 true, .vote 1 1 500]).gov 1 .ordinary = 500 := by
+  decide
+
+/-- a disciplined history with a third-party nomination (1 nominates 0, co-signed), the candidate's own ballots, a
+proposal that passes and is executed while its proposer stakes on a second one, and the withdrawals -/
+def demoStakes : List Call :=
+  [.init, .newBlock, .nominate 1 0 500 true 3, .newBlock, .tdVote 0 0 600 4, .propose 1 51 5 9 true, .vote 0 1 2805,
+   .timer 5, .propose 1 60 20 0 true, .timer 9, .newBlock, .revokeNominate 1 0 5, .newBlock, .tdRevokeVote 0 0 100 6,
+   .transfer 0 1 100]
+
+example : disciplinedRun (genesis [(0, 3000), (1, 2500)]) demoStakes = true := by decide
+
+/-- … in which the books and the locks are non-trivial at the end: the candidate keeps 500 ballots locked, the
+withdrawn deposit of the nominator is free again, the second proposal's deposit is still locked -/
+example : stakeTd (run (genesis [(0, 3000), (1, 2500)]) demoStakes).td 0 = 500 ∧
+    lockedOf (run (genesis [(0, 3000), (1, 2500)]) demoStakes).gov 0 .tdpos = 500 ∧
+    lockedOf (run (genesis [(0, 3000), (1, 2500)]) demoStakes).gov 1 .tdpos = 0 ∧
+    stakeOrd (run (genesis [(0, 3000), (1, 2500)]) demoStakes).props (run (genesis [(0, 3000), (1, 2500)]) demoStakes).locks 1 = 1000 ∧
+    lockedOf (run (genesis [(0, 3000), (1, 2500)]) demoStakes).gov 1 .ordinary = 1000 ∧
+    lockedOf (run (genesis [(0, 3000), (1, 2500)]) demoStakes).gov 0 .ordinary = 0 := by decide
+
+/-- the withdrawal of the third-party nomination gave the deposit back to the nominator (1) and left the candidate's
+(0) 600 locked ballots alone -/
+example : lockedOf (run (genesis [(0, 3000), (1, 1500)])
+      [.init, .newBlock, .nominate 1 0 500 true 3, .newBlock, .tdVote 0 0 600 4, .newBlock, .revokeNominate 1 0 5]).gov 0 .tdpos = 600 ∧
+    lockedOf (run (genesis [(0, 3000), (1, 1500)])
+      [.init, .newBlock, .nominate 1 0 500 true 3, .newBlock, .tdVote 0 0 600 4, .newBlock, .revokeNominate 1 0 5]).gov 1 .tdpos = 0 := by
   decide
 
 /-! ## why the read-then-write order matters: the ORIGINAL TransferGovernTokens
